@@ -273,4 +273,16 @@ theorem C14_desired_run_vs_required_run (ti : TyInfo) (ip : Option Nat) (x0 x' :
     · rw [hy1]
       exact Or.inr ⟨_, rfl⟩
 
+
+/-- premises are satisfiable, both ways: with provider 0 (Desired, kept) made Required the run succeeds alike; with provider 1
+    (Desired, asks for a type nobody provides) made Required the run fails -/
+def c14LockChain : Chain := initState c14ValidateExample []
+
+example : (match includeRun stdTyInfo none c14LockChain, includeRun stdTyInfo none (c14LockChain.upd 0 reqF),
+      includeRun stdTyInfo none (c14LockChain.upd 1 reqF) with
+    | .ok x', .ok y', .error _ => (x'.get 0).inc && (y'.get 0).inc && !(x'.get 1).inc && (x'.get 2).inc == (y'.get 2).inc
+        && (c14LockChain.get 0).c.desired && !(c14LockChain.get 0).c.required && !(c14LockChain.get 0).c.shun
+        && (c14LockChain.get 0).c.cluster == 0 && !(c14LockChain.get 0).excluded
+    | _, _, _ => false) = true := by decide
+
 end Nject
